@@ -96,7 +96,9 @@ struct PatParser
     int escape()
     {
         ++p;
-        if (eof()) return fail(UNSPECIFIED, "pattern ends with a backslash");
+        // the documented syntax has "escaped char" = backslash + character: a backslash with nothing behind it is no production of it (and the pinned
+        // library refuses it), so it is MALFORMED like the categories the property lists, not one of the lenient UNSPECIFIED constructs
+        if (eof()) return fail(MALFORMED, "dangling escape (pattern ends with a backslash)");
         unsigned char c = cur();
         if (!printable(c)) return fail(MALFORMED, "raw non-printable byte");
         ++p;
